@@ -88,24 +88,72 @@ fn new_hasher(m: &ModeArg) -> Option<blake3::Hasher> {
     })
 }
 
-/// A reader that replays a script: d<len>:<seed> (yield that many pattern bytes, possibly over
-/// several short reads if the buffer is smaller), s<len>:<seed> (same but at most <len> bytes in one
-/// call - a short read), i (Interrupted), e (other error), z (Ok(0)).
+/// A reader that replays a script, one event per `read` call:
+///   d<len>:<seed>        yield <len> pattern bytes; if the caller's buffer is smaller the rest stays
+///                        pending and is served by the following calls; d0 is skipped
+///   s<len>:<seed>:<k>    the same bytes, but at most <k> per call (short reads); exactly the
+///                        behaviour of ceil(len/k) consecutive `d` events of <= k bytes each
+///   i                    Err(Interrupted)
+///   e | e:<Kind>         Err(Other) | Err(<Kind>) (see `script_error_kind`)
+///   z                    Ok(0)
+/// An exhausted script yields Ok(0).  `calls` counts the `read` calls made.
 struct ScriptReader {
     events: Vec<String>,
     idx: usize,
     pending: Vec<u8>,
     ppos: usize,
+    stream: Vec<u8>,
+    spos: usize,
+    sk: usize,
+    calls: usize,
+}
+
+impl ScriptReader {
+    fn new(events: &[&str]) -> Self {
+        ScriptReader { events: events.iter().map(|s| s.to_string()).collect(), idx: 0, pending: vec![], ppos: 0, stream: vec![], spos: 0, sk: 0, calls: 0 }
+    }
+    /// bytes loaded from an event but not yet handed to the caller
+    fn undelivered(&self) -> usize {
+        (self.pending.len() - self.ppos) + (self.stream.len() - self.spos)
+    }
+}
+
+fn script_error_kind(name: &str) -> std::io::ErrorKind {
+    use std::io::ErrorKind::*;
+    match name {
+        "Other" => Other,
+        "NotFound" => NotFound,
+        "PermissionDenied" => PermissionDenied,
+        "ConnectionReset" => ConnectionReset,
+        "BrokenPipe" => BrokenPipe,
+        "WouldBlock" => WouldBlock,
+        "InvalidInput" => InvalidInput,
+        "InvalidData" => InvalidData,
+        "TimedOut" => TimedOut,
+        "WriteZero" => WriteZero,
+        "UnexpectedEof" => UnexpectedEof,
+        "Unsupported" => Unsupported,
+        "OutOfMemory" => OutOfMemory,
+        _ => panic!("bad reader event"),
+    }
 }
 
 impl Read for ScriptReader {
     fn read(&mut self, buf: &mut [u8]) -> std::io::Result<usize> {
+        self.calls += 1;
         loop {
             if self.ppos < self.pending.len() {
                 let n = std::cmp::min(buf.len(), self.pending.len() - self.ppos);
                 buf[..n].copy_from_slice(&self.pending[self.ppos..self.ppos + n]);
                 self.ppos += n;
                 return Ok(n);
+            }
+            if self.spos < self.stream.len() {
+                let n = std::cmp::min(self.sk, self.stream.len() - self.spos);
+                self.pending = self.stream[self.spos..self.spos + n].to_vec();
+                self.ppos = 0;
+                self.spos += n;
+                continue;
             }
             if self.idx >= self.events.len() {
                 return Ok(0);
@@ -124,9 +172,22 @@ impl Read for ScriptReader {
                         continue;
                     }
                 }
-                "i" => return Err(std::io::Error::from(std::io::ErrorKind::Interrupted)),
-                "e" => return Err(std::io::Error::new(std::io::ErrorKind::Other, "scripted")),
-                "z" => return Ok(0),
+                "s" => {
+                    let mut it = rest.split(':');
+                    let n: usize = it.next().unwrap().parse().unwrap();
+                    let seed: u64 = it.next().unwrap().parse().unwrap();
+                    let k: usize = it.next().unwrap().parse().unwrap();
+                    if k == 0 {
+                        panic!("bad reader event");
+                    }
+                    self.stream = pat(n, seed);
+                    self.spos = 0;
+                    self.sk = k;
+                }
+                "i" if rest.is_empty() => return Err(std::io::Error::from(std::io::ErrorKind::Interrupted)),
+                "e" if rest.is_empty() => return Err(std::io::Error::new(std::io::ErrorKind::Other, "scripted")),
+                "e" if rest.starts_with(':') => return Err(std::io::Error::new(script_error_kind(&rest[1..]), "scripted")),
+                "z" if rest.is_empty() => return Ok(0),
                 _ => panic!("bad reader event"),
             }
         }
@@ -209,11 +270,21 @@ fn step(st: &mut St, t: &[&str]) -> Option<String> {
             Some(format!("ok {}", blake3::verif_join_count()))
         }
         ["H", "updrd", r, events @ ..] => {
-            let rd = ScriptReader { events: events.iter().map(|s| s.to_string()).collect(), idx: 0, pending: vec![], ppos: 0 };
+            let rd = ScriptReader::new(events);
             match st.hs.get_mut(*r)?.update_reader(rd) {
                 Ok(_) => ok,
                 Err(e) => Some(format!("err:{:?}", e.kind())),
             }
+        }
+        // as updrd, but also reports what update_reader left behind in the reader:
+        // `<ok|err:Kind> <read calls made> <events consumed> <bytes loaded but not delivered>`
+        ["H", "updrdx", r, events @ ..] => {
+            let mut rd = ScriptReader::new(events);
+            let res = match st.hs.get_mut(*r)?.update_reader(&mut rd) {
+                Ok(_) => "ok".to_string(),
+                Err(e) => format!("err:{:?}", e.kind()),
+            };
+            Some(format!("{} {} {} {}", res, rd.calls, rd.idx, rd.undelivered()))
         }
         ["H", "updmm", r, path] => match st.hs.get_mut(*r)?.update_mmap(path) {
             Ok(_) => ok,
@@ -479,9 +550,10 @@ fn conv_step(t: &[&str]) -> Option<String> {
         ["fromhex", s] => {
             // s is the hex encoding of the *input bytes* given to from_hex
             let inp = unhex(s)?;
+            // the error kind is printed through the derived Debug: err:HexError(InvalidByte(103))
             Some(match blake3::Hash::from_hex(&inp) {
                 Ok(h) => hex(h.as_bytes()),
-                Err(_) => "err".into(),
+                Err(e) => format!("err:{:?}", e),
             })
         }
         ["fromstr", s] => {
@@ -489,7 +561,7 @@ fn conv_step(t: &[&str]) -> Option<String> {
             let st = std::str::from_utf8(&inp).ok()?;
             Some(match st.parse::<blake3::Hash>() {
                 Ok(h) => hex(h.as_bytes()),
-                Err(_) => "err".into(),
+                Err(e) => format!("err:{:?}", e),
             })
         }
         ["fromslice", s] => {
@@ -534,6 +606,25 @@ fn conv_step(t: &[&str]) -> Option<String> {
             legacy.extend_from_slice(&b);
             let back2: blake3::Hash = ciborium::from_reader(&legacy[..]).ok()?;
             Some(format!("{} {} {}", hex(&v), hex(back.as_bytes()), hex(back2.as_bytes())))
+        }
+        ["dbg", h] => {
+            let b: [u8; 32] = unhex(h)?.try_into().ok()?;
+            Some(format!("{:?}", blake3::Hash::from_bytes(b)))
+        }
+        ["jsondec", s] => {
+            // s is the hex encoding of the JSON text (any bytes)
+            let inp = unhex(s)?;
+            Some(match serde_json::from_slice::<blake3::Hash>(&inp) {
+                Ok(h) => hex(h.as_bytes()),
+                Err(_) => "err".into(),
+            })
+        }
+        ["cbordec", s] => {
+            let inp = unhex(s)?;
+            Some(match ciborium::from_reader::<blake3::Hash, _>(&inp[..]) {
+                Ok(h) => hex(h.as_bytes()),
+                Err(_) => "err".into(),
+            })
         }
         _ => None,
     }
